@@ -316,6 +316,18 @@ theorem trace_replay_accepted {c : DCfg} {mgmt : Str} {labels : List DLabel} {ob
   exact ⟨s, hs.log, drun_inflight_le hs.run, drun_accepts wf hs.run hs.finished,
     fun hj => monSpec_of_accepts (cfg := monCfgOf c mgmt s) hj (drun_accepts wf hs.run hs.finished)⟩
 
+/-- … and the hypotheses on the configuration are themselves checked on every observed run: the
+replay operation of the driver answers `accept` only if `traceCheck … = ok` and `dwfB c mgmt = true`,
+which is all the conclusion needs. -/
+theorem trace_replay_checked {c : DCfg} {mgmt : Str} {labels : List DLabel} {observed : List CEv}
+    {tags : List FileResult} (hw : dwfB c mgmt = true) (h : traceCheck c labels observed tags = .ok) :
+    ∃ s : DSt, stripCancel s.log = stripCancel observed ∧ s.inflight.length ≤ c.jobs ∧
+      accepts (monCfgOf c mgmt s) s.log = none ∧
+      (c.jobs > 0 → MonSpec (monCfgOf c mgmt s) s.log) :=
+  trace_replay_accepted (dwf_of_dwfB hw) h
+
+example : dwfB exCfg (kw "main") = true := by decide
+
 -- the checker on the example runs: the model's own log replays, a log with one event missing or a
 -- result changed does not
 example : traceCheck exCfg exRunClose
